@@ -158,7 +158,8 @@ var BoundaryLens = []int{1, 2, 3, 4, 5, 6, 7, 8, 9, 10, 11, 12, 15, 20, 29, 30, 
 var HostileNames = []string{"a", "b", "Z", "s0", "s1", "s2", "seq_1", "seq_2", "x_0001", "x_0002", "x", "0", "1", "42", "0001",
 	"tenchars10", "elevenchars", "A|B", "A:B", "a.b", "name with space", " lead", "trail ", "[br]", "(p)", "a,b", "a;b", "pre", "prefix", "prefix2",
 	"S1", "S01", "é", "Seq0000", "Seq0001", "GAP", "N", "-", "s0_0001", "s0_0002",
-	"cov100%", "%d", "a%sb"} // names are data, never a format string
+	"cov100%", "%d", "a%sb", // names are data, never a format string
+	"Homo_sapiens_isolate_1", "Homo_sapiens_isolate_2"} // equal over their first 10 characters (strict Phylip cuts there)
 
 // UniqueNames returns n pairwise distinct names, some from the hostile pool.
 func UniqueNames(r *Rand, n int, hostile bool) []string {
